@@ -449,12 +449,86 @@ Proof. intros H Hn f Hf. apply H. lia. Qed.
 Lemma rv_ok_mono n n' s k s' : rv_ok n s k s' -> (n <= n')%nat -> rv_ok n' s k s'.
 Proof. intros H Hn f Hf. apply H. lia. Qed.
 
+(* ---- unfolding equations of the mutual fixpoint (the bodies are copied from model/Expr.v) ---- *)
+Lemma read_value_S f s : read_value tb lexvars (S f) s =
+    match sksp s with
+    | [] => Ok (None, [])
+    | c :: r =>
+      let s0 := c :: r in
+      if c =? 40 then                                   (* '(' *)
+        do p <- read_calc_priority tb lexvars f LEX_OR_AND r;
+        let '(t, s1) := p in
+        let s2 := sksp s1 in
+        if eq_char s2 44 then                           (* ',' : array *)
+          do q <- array_loop tb lexvars f (tl s2) [opt_or_zero t];
+          let '(items, s3) := q in
+          if eq_char s3 41 then Ok (Some (TMakeArray items), tl s3) else Unsupported U_PAREN
+        else if eq_char s2 41 then Ok (t, tl s2)
+        else Unsupported U_PAREN
+      else if c =? 45 then                              (* '-' *)
+        if is_numeric r then
+          let '(num, s1) := get_int 0 r in Ok (Some (TConstInt (-1 * num)), s1)
+        else
+          do p <- read_value tb lexvars f r;
+          let '(t, s1) := p in
+          Ok (Some (TCalc 42 0 (TConstInt (-1)) (opt_or_zero t)), s1)
+      else if is_digit c || (c =? 36) then              (* '0'..'9', '$' *)
+        let '(num, s1) := get_int 0 s0 in Ok (Some (TConstInt num), s1)
+      else if c =? 33 then                              (* '!' length literal *)
+        let '(len_str, s1, _) := get_note_length r 0 in
+        Ok (Some (TConstInt (calc_length len_str tb tb)), s1)
+      else if c =? 123 then                             (* '{' *)
+        let '(str, s1) := get_token_nest 123 125 s0 in Ok (Some (TConstStr str), s1)
+      else if c =? 34 then                              (* double quote *)
+        let '(str, s1, _) := get_token_ch 34 r 0 in Ok (Some (TConstStr str), s1)
+      else if is_upper c || is_lower c || (c =? 95) || (c =? 35) then
+        (* read_value_word *)
+        let '(name, s1) := get_word s0 in
+        if eq_char s1 40 then
+          let '(arg_str, s2) := get_token_nest 40 41 s1 in
+          do args <- lex_calc_loop tb lexvars f arg_str [];
+          Ok (Some (TCall (mem_name name lexvars) name args), s2)
+        else if prefixb [43; 43] s1 then Ok (Some (TValueInc name 1), skipn 2 s1)
+        else if prefixb [45; 45] s1 then Ok (Some (TValueInc name (-1)), skipn 2 s1)
+        else Ok (Some (TGetVar name), s1)
+      else Ok (None, s0)
+    end.
+Proof. reflexivity. Qed.
+
+Lemma read_calc_priority_S f max_priority s : read_calc_priority tb lexvars (S f) max_priority s =
+    do p <- read_value tb lexvars f s;
+    match p with
+    | (None, s1) => Ok (None, s1)
+    | (Some left_val, s1) =>
+        do q <- calc_loop tb lexvars f max_priority left_val s1;
+        let '(t, s2) := q in Ok (Some t, s2)
+    end.
+Proof. reflexivity. Qed.
+
+Lemma calc_loop_S f max_priority left_val s : calc_loop tb lexvars (S f) max_priority left_val s =
+    match s with
+    | [] => Ok (left_val, [])
+    | _ =>
+      match read_operator s with
+      | None => Ok (left_val, sksp s)
+      | Some (c, p, s1) =>
+          if p >? max_priority then Ok (left_val, s)      (* roll back, the caller reads it *)
+          else
+            do q <- read_calc_priority tb lexvars f (p - 1) s1;
+            match q with
+            | (None, _) => Unsupported U_MISSING
+            | (Some right_val, s2) => calc_loop tb lexvars f max_priority (TCalc c p left_val right_val) s2
+            end
+      end
+    end.
+Proof. reflexivity. Qed.
+
 (* ---- one lemma per branch of read_value ---- *)
 Lemma rv_paren f s r0 t s1 s2 :
   sksp s = 40 :: r0 -> rcp f LEX_OR_AND r0 = Ok (Some t, s1) -> sksp s1 = 41 :: s2 ->
   rv (S f) s = Ok (Some t, s2).
 Proof.
-  intros Hs Hr H2. cbn [read_value]. rewrite Hs. change (40 =? 40) with true. cbv beta iota zeta.
+  intros Hs Hr H2. rewrite read_value_S. rewrite Hs. change (40 =? 40) with true. cbv beta iota zeta.
   rewrite Hr. cbn [bind]. rewrite H2. reflexivity.
 Qed.
 
@@ -462,7 +536,7 @@ Lemma rv_minus_num f s r0 :
   sksp s = 45 :: r0 -> is_numeric r0 = true ->
   rv (S f) s = let '(num, s1) := get_int 0 r0 in Ok (Some (TConstInt (-1 * num)), s1).
 Proof.
-  intros Hs Hn. cbn [read_value]. rewrite Hs. change (45 =? 40) with false. change (45 =? 45) with true.
+  intros Hs Hn. rewrite read_value_S. rewrite Hs. change (45 =? 40) with false. change (45 =? 45) with true.
   cbv beta iota zeta. rewrite Hn. reflexivity.
 Qed.
 
@@ -470,7 +544,7 @@ Lemma rv_minus_val f s r0 k s1 :
   sksp s = 45 :: r0 -> is_numeric r0 = false -> rv f r0 = Ok (Some k, s1) ->
   rv (S f) s = Ok (Some (TCalc 42 0 (TConstInt (-1)) k), s1).
 Proof.
-  intros Hs Hn Hv. cbn [read_value]. rewrite Hs. change (45 =? 40) with false. change (45 =? 45) with true.
+  intros Hs Hn Hv. rewrite read_value_S. rewrite Hs. change (45 =? 40) with false. change (45 =? 45) with true.
   cbv beta iota zeta. rewrite Hn, Hv. reflexivity.
 Qed.
 
@@ -478,7 +552,7 @@ Lemma rv_num f s c r0 :
   sksp s = c :: r0 -> is_digit c || (c =? 36) = true ->
   rv (S f) s = let '(num, s1) := get_int 0 (c :: r0) in Ok (Some (TConstInt num), s1).
 Proof.
-  intros Hs Hc. cbn [read_value]. rewrite Hs.
+  intros Hs Hc. rewrite read_value_S. rewrite Hs.
   replace (c =? 40) with false by (unfold is_digit in Hc; lia).
   replace (c =? 45) with false by (unfold is_digit in Hc; lia).
   cbv beta iota zeta. rewrite Hc. reflexivity.
@@ -487,14 +561,14 @@ Qed.
 Lemma rv_str f s r0 :
   sksp s = 123 :: r0 ->
   rv (S f) s = let '(str, s1) := get_token_nest 123 125 (123 :: r0) in Ok (Some (TConstStr str), s1).
-Proof. intros Hs. cbn [read_value]. rewrite Hs. reflexivity. Qed.
+Proof. intros Hs. rewrite read_value_S. rewrite Hs. reflexivity. Qed.
 
 Lemma rv_word f s c r0 x s1 :
   sksp s = c :: r0 -> is_letter c = true -> get_word (c :: r0) = (x, s1) ->
   eq_char s1 40 = false -> prefixb [43; 43] s1 = false -> prefixb [45; 45] s1 = false ->
   rv (S f) s = Ok (Some (TGetVar x), s1).
 Proof.
-  intros Hs Hc Hw H1 H2 H3. cbn [read_value]. rewrite Hs.
+  intros Hs Hc Hw H1 H2 H3. rewrite read_value_S. rewrite Hs.
   unfold is_letter, in_range in Hc.
   replace (c =? 40) with false by lia. replace (c =? 45) with false by lia.
   replace (is_digit c || (c =? 36)) with false by (unfold is_digit; lia).
@@ -502,3 +576,635 @@ Proof.
   replace (is_upper c || is_lower c || (c =? 95) || (c =? 35)) with true by (unfold is_upper, is_lower; lia).
   cbv beta iota zeta. rewrite Hw. rewrite H1, H2, H3. reflexivity.
 Qed.
+
+(* ---- the token tree of a syntax tree ("-3" is read as the constant -3, "- 3" and "-(3)" as -1 * 3) ---- *)
+Inductive rep : expr -> tok -> Prop :=
+| R_lit n : rep (Lit n) (TConstInt (lit_value n))
+| R_str s : rep (Str s) (TConstStr s)
+| R_var x : rep (Var x) (TGetVar x)
+| R_neglit n : rep (Neg (Lit n)) (TConstInt (-1 * lit_value n))
+| R_neg e k : rep e k -> rep (Neg e) (TCalc 42 0 (TConstInt (-1)) k)
+| R_bin o a b ka kb : rep a ka -> rep b kb -> rep (Bin o a b) (TCalc (opch o) (prio o) ka kb).
+
+(* what may follow an operand *)
+Definition follow_ok (r : list Z) : Prop :=
+  nw r /\ eq_char r 40 = false /\ prefixb [43; 43] r = false /\ prefixb [45; 45] r = false.
+(* the next operator, if any, has level >= l *)
+Definition nextop_ok (l : nat) (r : list Z) : Prop :=
+  r = [] \/ read_operator r = None \/ exists c p s1, read_operator r = Some (c, p, s1) /\ P l <= p.
+
+Lemma nextop_stops l M r : nextop_ok l r -> M < P l -> stops M r.
+Proof.
+  intros [H | [H | (c & p & s1 & H & Hp)]] HM; [left; assumption | right; left; assumption|].
+  right. right. exists c, p, s1. split; [assumption | lia].
+Qed.
+Lemma nextop_mono l l' r : nextop_ok l r -> (l' <= l)%nat -> nextop_ok l' r.
+Proof.
+  intros [H | [H | (c & p & s1 & H & Hp)]] Hl; [left; assumption | right; left; assumption|].
+  right. right. exists c, p, s1. split; [assumption|]. pose proof (P_mono l' l Hl). lia.
+Qed.
+
+Lemma prints_head l e t : prints l e t -> exists c t', t = c :: t' /\ operand_start c = true.
+Proof.
+  induction 1.
+  - destruct n as [ds | dollar ds | ds]; cbn [lit_ok] in H; apply andb_prop in H; destruct H as [Hne Hd];
+      (destruct ds as [|d ds]; [discriminate|]); cbn [lit_text map].
+    + cbn [forallb] in Hd. apply andb_prop in Hd. destruct Hd as [Hd _]. unfold in_range in Hd.
+      eexists. eexists. split; [reflexivity|]. unfold operand_start, is_digit. lia.
+    + destruct dollar; eexists; eexists; (split; [reflexivity|]); reflexivity.
+    + eexists. eexists. split; [reflexivity|]. reflexivity.
+  - eexists. eexists. split; [reflexivity|]. reflexivity.
+  - destruct (name_ok_inv x H) as (c & x' & -> & Hc & _). exists c, x'. split; [reflexivity|].
+    unfold operand_start. rewrite Hc. rewrite !orb_true_r. reflexivity.
+  - eexists. eexists. split; [reflexivity|]. reflexivity.
+  - eexists. eexists. split; [reflexivity|]. reflexivity.
+  - destruct IHprints1 as (c & t' & -> & Hc). exists c. eexists. split; [reflexivity|]. assumption.
+Qed.
+
+Lemma blanks_cons c ws : blanks (c :: ws) -> is_blank c = true /\ blanks ws.
+Proof. unfold blanks. cbn [forallb]. intros H. apply andb_prop in H. exact H. Qed.
+
+Lemma first_ok_operand l e t ws r : prints l e t -> blanks ws -> first_ok (ws ++ t ++ r).
+Proof.
+  intros Hp Hws. destruct ws as [|c ws].
+  - destruct (prints_head _ _ _ Hp) as (c & t' & -> & Hc). cbn [app first_ok]. rewrite Hc. apply orb_true_r.
+  - apply blanks_cons in Hws. destruct Hws as [Hc _]. cbn [app first_ok]. rewrite Hc. reflexivity.
+Qed.
+
+Lemma blank_facts c : is_blank c = true -> is_word_ch c = false /\ c <> 40 /\ c <> 43 /\ c <> 45.
+Proof. unfold is_blank, is_word_ch, is_upper, is_lower, is_digit. lia. Qed.
+
+Lemma follow_ok_blank c r : is_blank c = true -> follow_ok (c :: r).
+Proof.
+  intros H. apply blank_facts in H. destruct H as (H1 & H2 & H3 & H4). unfold follow_ok. cbn [nw eq_char prefixb].
+  repeat split; try assumption; lia.
+Qed.
+
+(* after an operand: blanks, the operator, blanks, the right operand *)
+Lemma follow_ok_op o ws1 ws2 tb0 l b r :
+  blanks ws1 -> blanks ws2 -> prints l b tb0 -> clash o ws2 tb0 = false ->
+  follow_ok (ws1 ++ opstr o ++ ws2 ++ tb0 ++ r).
+Proof.
+  intros H1 H2 Hb Hc. destruct ws1 as [|c ws1].
+  - cbn [app].
+    pose proof (first_ok_operand _ _ _ ws2 r Hb H2) as Hf.
+    destruct (ws2 ++ tb0 ++ r) as [|c rest] eqn:E; [destruct Hf|]. cbn [first_ok] in Hf.
+    pose proof (first_ok_facts c Hf) as F.
+    assert (Hm : o = OSub -> c <> 45).
+    { intros ->. destruct ws2 as [|w ws2].
+      - cbn [clash] in Hc. cbn [app] in E. destruct tb0 as [|c0 t0]; [cbn in E|].
+        + destruct (prints_head _ _ _ Hb) as (? & ? & ? & _). discriminate.
+        + cbn [app] in E. inversion E. subst. cbn [starts_minus] in Hc. lia.
+      - cbn [app] in E. inversion E. subst. apply blanks_cons in H2. destruct H2 as [Hw _].
+        apply blank_facts in Hw. lia. }
+    unfold follow_ok. destruct o; cbn [opstr app nw eq_char prefixb]; unfold is_word_ch, is_upper, is_lower, is_digit;
+      repeat split; try reflexivity; try lia.
+    specialize (Hm eq_refl). lia.
+  - apply blanks_cons in H1. destruct H1 as [Hc1 _]. cbn [app]. apply follow_ok_blank. assumption.
+Qed.
+
+Lemma follow_ok_close ws r : blanks ws -> follow_ok (ws ++ 41 :: r).
+Proof.
+  intros H. destruct ws as [|c ws].
+  - cbn [app]. unfold follow_ok. cbn. repeat split; reflexivity.
+  - apply blanks_cons in H. destruct H as [Hc _]. cbn [app]. apply follow_ok_blank. assumption.
+Qed.
+
+Lemma read_operator_close ws r : blanks ws -> read_operator (ws ++ 41 :: r) = None.
+Proof.
+  intros H. unfold read_operator. rewrite sksp_blanks by assumption.
+  rewrite sksp_solid by (unfold solid; lia). reflexivity.
+Qed.
+
+Lemma rest_of_close ws r : blanks ws -> rest_of (ws ++ 41 :: r) = 41 :: r.
+Proof.
+  intros H. unfold rest_of. rewrite read_operator_close by assumption.
+  rewrite sksp_blanks by assumption. rewrite sksp_solid by (unfold solid; lia).
+  destruct (ws ++ 41 :: r) eqn:E; [|reflexivity]. destruct ws; discriminate.
+Qed.
+
+Lemma lit_text_head n : lit_ok n = true ->
+  exists c t', lit_text n = c :: t' /\ (is_digit c || (c =? 36)) = true /\ solid c.
+Proof.
+  intros H. destruct n as [ds | dollar ds | ds]; cbn [lit_ok] in H; apply andb_prop in H; destruct H as [Hne Hd];
+    (destruct ds as [|d ds]; [discriminate|]); cbn [lit_text map].
+  - cbn [forallb] in Hd. apply andb_prop in Hd. destruct Hd as [Hd _]. unfold in_range in Hd.
+    eexists. eexists. split; [reflexivity|]. unfold is_digit, solid. split; lia.
+  - destruct dollar; eexists; eexists; (split; [reflexivity|]); unfold solid; split; try reflexivity; lia.
+  - eexists. eexists. split; [reflexivity|]. unfold solid. split; try reflexivity; lia.
+Qed.
+
+(* an operand text starting with a digit is a literal *)
+Lemma prints0_numeric e t ws r : prints 0 e t -> blanks ws -> is_numeric (ws ++ t ++ r) = true ->
+  ws = [] /\ exists n, e = Lit n /\ t = lit_text n /\ lit_ok n = true.
+Proof.
+  intros Hp Hws Hn. destruct ws as [|c ws].
+  2:{ apply blanks_cons in Hws. destruct Hws as [Hc _]. cbn [app is_numeric] in Hn.
+      unfold is_blank in Hc. unfold is_digit in Hn. lia. }
+  split; [reflexivity|]. cbn [app] in Hn.
+  inversion Hp; subst; cbn [app is_numeric] in Hn.
+  - eexists. repeat split. assumption.
+  - unfold is_digit in Hn. lia.
+  - match goal with H : name_ok ?x = true |- _ => destruct (name_ok_inv x H) as (c & x' & -> & Hc & _) end.
+    cbn [app is_numeric] in Hn. unfold is_letter, in_range in Hc. unfold is_digit in Hn. lia.
+  - unfold is_digit in Hn. lia.
+  - unfold is_digit in Hn. lia.
+  - match goal with H : (lvl ?o <= 0)%nat |- _ => pose proof (lvl_pos o); lia end.
+Qed.
+
+Lemma prints_nonempty l e t : prints l e t -> (1 <= length t)%nat.
+Proof. intros H. destruct (prints_head _ _ _ H) as (c & t' & -> & _). cbn [length]. lia. Qed.
+
+Definition parse_claim (l : nat) (e : expr) (t r : list Z) (k : tok) : Prop :=
+  rep e k /\
+  (l = 0%nat -> forall ws, blanks ws -> rv_ok (4 * length t) (ws ++ t ++ r) k r) /\
+  (forall ws M n k' s', blanks ws -> P l <= M -> nextop_ok l r -> loop_ok n M k r k' s' ->
+     rcp_ok (n + 4 * length t + 1) M (ws ++ t ++ r) k' s').
+
+Lemma atom_pack l e t r k :
+  rep e k -> (forall ws, blanks ws -> rv_ok (4 * length t) (ws ++ t ++ r) k r) -> parse_claim l e t r k.
+Proof.
+  intros Hr HA. split; [assumption|]. split; [intros _; assumption|].
+  intros ws M n k' s' Hws _ _ Hl.
+  eapply rcp_ok_mono; [eapply rcp_intro; [apply HA; assumption | exact Hl] | lia].
+Qed.
+
+(* The precedence-climbing lemma.  For a rendering t of e at level l, followed by r:
+   - if l = 0 (an operand), read_value consumes exactly t;
+   - read_calc_priority M, for any M admitting the operators of level <= l, behaves on t ++ r like its
+     loop started on r with the tree of e as left value, provided the next operator in r (if any) has
+     level >= l - so nothing of r is pulled into e's tree, and nothing of t is left. *)
+Lemma parse_gen l e t : prints l e t -> forall r, follow_ok r -> exists k, parse_claim l e t r k.
+Proof.
+  induction 1 as [l n Hn | l s Hs | l x Hx | l e ws0 t Hws0 Hp IH | l e ws1 t ws2 Hws1 Hws2 Hp IH
+                 | l o a b ta ws1 ws2 tb0 Hl Hpa IHa Hpb IHb Hws1 Hws2 Hclash]; intros r Hr.
+  - (* literal *)
+    exists (TConstInt (lit_value n)). apply atom_pack; [constructor|].
+    intros ws Hws f Hf.
+    destruct (lit_text_head n Hn) as (c & t' & E & Hc & Hsol).
+    destruct f as [|f]; [rewrite E in Hf; cbn [length] in Hf; lia|].
+    rewrite (rv_num f _ c (t' ++ r)); [| | assumption].
+    + change (c :: t' ++ r) with ((c :: t') ++ r). rewrite <- E.
+      rewrite get_int_lit; [reflexivity | assumption | apply Hr].
+    + rewrite sksp_blanks by assumption. rewrite E. cbn [app]. apply sksp_solid. assumption.
+  - (* string constant *)
+    exists (TConstStr s). apply atom_pack; [constructor|].
+    intros ws Hws f Hf. destruct f as [|f]; [cbn [length] in Hf; lia|].
+    rewrite (rv_str f _ ((s ++ [125]) ++ r)).
+    + unfold get_token_nest. cbn [eq_char]. change (123 =? 123) with true. cbn [tl].
+      rewrite <- app_assoc. cbn [app]. rewrite nest_str by assumption. reflexivity.
+    + rewrite sksp_blanks by assumption. cbn [app]. apply sksp_solid. unfold solid. lia.
+  - (* variable *)
+    exists (TGetVar x). apply atom_pack; [constructor|].
+    intros ws Hws f Hf. destruct (name_ok_inv x Hx) as (c & x' & E & Hc & _).
+    destruct f as [|f]; [rewrite E in Hf; cbn [length] in Hf; lia|].
+    destruct Hr as (R1 & R2 & R3 & R4).
+    rewrite (rv_word f _ c (x' ++ r) x r); try assumption; [reflexivity | |].
+    + rewrite sksp_blanks by assumption. rewrite E. cbn [app]. apply sksp_solid.
+      unfold is_letter, in_range in Hc. unfold solid. lia.
+    + change (c :: x' ++ r) with ((c :: x') ++ r). rewrite <- E. apply get_word_name; assumption.
+  - (* unary minus *)
+    destruct (IH r Hr) as (k0 & Hrep0 & HA0 & _). specialize (HA0 eq_refl).
+    pose proof (prints_nonempty _ _ _ Hp) as Hlen.
+    destruct (is_numeric (ws0 ++ t ++ r)) eqn:En.
+    + (* "-" directly followed by a digit: a negative constant *)
+      destruct (prints0_numeric e t ws0 r Hp Hws0 En) as (-> & n & -> & -> & Hn).
+      exists (TConstInt (-1 * lit_value n)). apply atom_pack; [constructor|].
+      intros ws Hws f Hf. destruct f as [|f]; [cbn [length] in Hf; lia|].
+      rewrite (rv_minus_num f _ (lit_text n ++ r)).
+      * rewrite get_int_lit; [reflexivity | assumption | apply Hr].
+      * rewrite sksp_blanks by assumption. cbn [app]. apply sksp_solid. unfold solid. lia.
+      * exact En.
+    + exists (TCalc 42 0 (TConstInt (-1)) k0). apply atom_pack; [constructor; assumption|].
+      intros ws Hws f Hf. destruct f as [|f]; [cbn [length] in Hf; lia|].
+      rewrite (rv_minus_val f _ (ws0 ++ t ++ r) k0 r); [reflexivity | | exact En |].
+      * rewrite sksp_blanks by assumption. cbn [app]. rewrite <- app_assoc. apply sksp_solid. unfold solid. lia.
+      * apply HA0; [assumption|]. cbn [length] in Hf. rewrite app_length in Hf. lia.
+  - (* parentheses *)
+    destruct (IH (ws2 ++ 41 :: r) (follow_ok_close ws2 r Hws2)) as (k0 & Hrep0 & _ & HB0).
+    exists k0. apply atom_pack; [assumption|].
+    intros ws Hws f Hf. destruct f as [|f]; [cbn [length] in Hf; lia|].
+    apply (rv_paren f _ (ws1 ++ t ++ ws2 ++ 41 :: r) k0 (41 :: r) r).
+    + rewrite sksp_blanks by assumption. cbn [app].
+      replace ((ws1 ++ t ++ ws2 ++ [41]) ++ r) with (ws1 ++ t ++ ws2 ++ 41 :: r)
+        by (rewrite <- !app_assoc; reflexivity).
+      apply sksp_solid. unfold solid. lia.
+    + assert (Hstop : loop_ok 1 LEX_OR_AND k0 (ws2 ++ 41 :: r) k0 (41 :: r)).
+      { pose proof (loop_stop LEX_OR_AND k0 (ws2 ++ 41 :: r)) as Hst. rewrite rest_of_close in Hst by assumption.
+        apply Hst. right. left. apply read_operator_close. assumption. }
+      apply (HB0 ws1 LEX_OR_AND 1%nat k0 (41 :: r) Hws1).
+      * rewrite P_top. lia.
+      * right. left. apply read_operator_close. assumption.
+      * exact Hstop.
+      * cbn [length] in Hf. rewrite !app_length in Hf. cbn [length] in Hf. lia.
+    + apply sksp_solid. unfold solid. lia.
+  - (* binary operator *)
+    destruct (IHb r Hr) as (kb & Hrepb & _ & HBb).
+    set (r1 := ws1 ++ opstr o ++ ws2 ++ tb0 ++ r).
+    assert (Hr1 : follow_ok r1) by (eapply follow_ok_op; eassumption).
+    destruct (IHa r1 Hr1) as (ka & Hrepa & _ & HBa).
+    exists (TCalc (opch o) (prio o) ka kb). split; [constructor; assumption|].
+    split; [intros ->; pose proof (lvl_pos o); lia|].
+    intros ws M n k' s' Hws HM Hnext Hloop.
+    assert (Hop : read_operator r1 = Some (opch o, prio o, ws2 ++ tb0 ++ r)).
+    { apply read_operator_opstr; [assumption|]. eapply first_ok_operand; eassumption. }
+    assert (HPl : P (lvl o) <= P l) by (apply P_mono; assumption).
+    assert (Hright : rcp_ok (1 + 4 * length tb0 + 1) (prio o - 1) (ws2 ++ tb0 ++ r) kb (rest_of r)).
+    { apply HBb; [assumption | apply P_pred | eapply nextop_mono; [eassumption | lia] |].
+      apply loop_stop. eapply nextop_stops; [eassumption|]. rewrite prio_lvl. lia. }
+    assert (Hl1 : loop_ok (S ((1 + 4 * length tb0 + 1) + S n)) M ka r1 k' s').
+    { eapply loop_step; [| exact Hop | rewrite prio_lvl; lia | exact Hright | apply loop_rest_of; exact Hloop].
+      unfold r1. destruct ws1; [destruct o|]; discriminate. }
+    replace (ws ++ (ta ++ ws1 ++ opstr o ++ ws2 ++ tb0) ++ r) with (ws ++ ta ++ r1)
+      by (unfold r1; rewrite <- !app_assoc; reflexivity).
+    eapply rcp_ok_mono.
+    + apply (HBa ws M (S ((1 + 4 * length tb0 + 1) + S n)) k' s' Hws); [lia | | exact Hl1].
+      right. right. exists (opch o), (prio o), (ws2 ++ tb0 ++ r). split; [exact Hop | rewrite prio_lvl; lia].
+    + rewrite !app_length. assert (1 <= length (opstr o))%nat by (destruct o; cbn; lia). lia.
+Qed.
+
+(* ---- the whole expression, up to a terminator ---- *)
+Definition is_stop_char (c : Z) : bool :=
+  negb (is_blank c) && negb (is_operator_char c) && negb (is_word_ch c) && negb (c =? 40).
+(* blanks, then the end of the text or a character that is no blank, operator character, letter,
+   digit, '_' or '(' - for instance ')' ';' ',' or a line break *)
+Definition stop_tail (r : list Z) : Prop :=
+  exists ws r', r = ws ++ r' /\ blanks ws /\ match r' with [] => True | c :: _ => is_stop_char c = true end.
+
+Lemma stop_char_facts c : is_stop_char c = true ->
+  is_blank c = false /\ is_operator_char c = false /\ is_word_ch c = false /\ c <> 40 /\ c <> 43 /\ c <> 45 /\ c <> 47.
+Proof.
+  intros H. unfold is_stop_char in H.
+  apply andb_prop in H. destruct H as [H H4]. apply andb_prop in H. destruct H as [H H3].
+  apply andb_prop in H. destruct H as [H1 H2].
+  apply negb_true_iff in H1. apply negb_true_iff in H2. apply negb_true_iff in H3. apply negb_true_iff in H4.
+  pose proof H2 as Ho. unfold is_operator_char, operator_chars, mem_z in Ho.
+  repeat split; try assumption; lia.
+Qed.
+
+Lemma stop_tail_follow r : stop_tail r -> follow_ok r.
+Proof.
+  intros (ws & r' & -> & Hws & Hr'). destruct ws as [|c ws].
+  - cbn [app]. destruct r' as [|c r']; [unfold follow_ok; cbn; auto|].
+    apply stop_char_facts in Hr'. destruct Hr' as (_ & _ & Hw & H40 & H43 & H45 & _).
+    unfold follow_ok. cbn [nw eq_char prefixb]. repeat split; try assumption; lia.
+  - apply blanks_cons in Hws. destruct Hws as [Hc _]. apply follow_ok_blank. assumption.
+Qed.
+
+Lemma stop_tail_noop r : stop_tail r -> read_operator r = None.
+Proof.
+  intros (ws & r' & -> & Hws & Hr'). unfold read_operator. rewrite sksp_blanks by assumption.
+  destruct r' as [|c r']; [reflexivity|].
+  apply stop_char_facts in Hr'. destruct Hr' as (Hb & Ho & _ & _ & _ & _ & H47).
+  rewrite sksp_solid by (unfold is_blank in Hb; unfold solid; lia).
+  cbn [peek0]. rewrite Ho. reflexivity.
+Qed.
+
+Lemma parse_top e t ws0 r : prints 4 e t -> blanks ws0 -> stop_tail r ->
+  exists k s', rep e k /\ read_calc tb lexvars (ws0 ++ t ++ r) = Ok (Some k, s').
+Proof.
+  intros Hp Hws Hr.
+  destruct (parse_gen 4 e t Hp r (stop_tail_follow r Hr)) as (k & Hrep & _ & HB).
+  exists k, (rest_of r). split; [assumption|].
+  unfold read_calc. apply (HB ws0 LEX_OR_AND 1%nat k (rest_of r) Hws).
+  - rewrite P_top. lia.
+  - right. left. apply stop_tail_noop. assumption.
+  - apply loop_stop. right. left. apply stop_tail_noop. assumption.
+  - unfold calc_fuel. rewrite !app_length. lia.
+Qed.
+End Reader.
+
+(* ================================================================================================ *)
+(* 5. evaluation                                                                                      *)
+(* ================================================================================================ *)
+Definition inj (v : value) : sval :=
+  match v with VI z => SInt z | VS s => SStr s | VB b => SBool b end.
+Definition menv (en : env) : venv := map (fun p => (fst p, inj (snd p))) en.
+
+Lemma list_eqb_text a : forall b, list_eqb a b = text_eqb a b.
+Proof. induction a as [|x a IH]; destruct b as [|y b]; cbn [list_eqb text_eqb]; try reflexivity; rewrite IH; reflexivity. Qed.
+
+Lemma var_get_menv en x : var_get (menv en) x = option_map inj (lookup en x).
+Proof.
+  induction en as [|[y v] en IH]; [reflexivity|].
+  cbn [menv map var_get lookup fst snd]. rewrite list_eqb_text. destruct (text_eqb x y); [reflexivity|]. exact IH.
+Qed.
+
+Lemma eval_calc en flag p l r : eval en (TCalc flag p l r) =
+  if flag =? 0 then Unsupported U_STATE else do a <- eval en l; do b <- eval en r; calc flag a b.
+Proof. reflexivity. Qed.
+
+Ltac calc_reduce :=
+  unfold calc, c_NE, c_GE, c_LE;
+  repeat match goal with
+  | |- context [Z.eqb (Zpos ?a) (Zpos ?b)] =>
+      let v := eval vm_compute in (Z.eqb (Zpos a) (Zpos b)) in change (Z.eqb (Zpos a) (Zpos b)) with v
+  end; cbv beta iota.
+
+Lemma eqb_cmp a b : (a =? b) = match a ?= b with Eq => true | _ => false end.
+Proof. destruct (Z.compare_spec a b); [subst; apply Z.eqb_refl | apply Z.eqb_neq; lia | apply Z.eqb_neq; lia]. Qed.
+
+Lemma calc_int o a b v : binop o (VI a) (VI b) = Some v -> calc (opch o) (SInt a) (SInt b) = Ok (inj v).
+Proof.
+  intros H. destruct o; cbn [binop] in H; inversion H; subst; clear H; cbn [opch inj]; calc_reduce;
+    unfold sv_ne; unfold sv_add, sv_div, sv_eq, sv_gt, sv_gteq, sv_lt, sv_lteq, quot0, rem0;
+    cbn [to_i is_s orb cmp_holds]; cbv zeta;
+    try reflexivity;
+    try (destruct (b =? 0); reflexivity);
+    try (rewrite eqb_cmp; destruct (a ?= b); reflexivity);
+    try (unfold Z.ltb, Z.leb, Z.gtb, Z.geb; destruct (a ?= b); reflexivity).
+Qed.
+
+Lemma calc_bool o a b v : binop o (VB a) (VB b) = Some v -> calc (opch o) (SBool a) (SBool b) = Ok (inj v).
+Proof.
+  intros H. destruct o; cbn [binop] in H; inversion H; subst; clear H; cbn [opch inj]; calc_reduce;
+    unfold to_b; cbn [to_i]; destruct a, b; reflexivity.
+Qed.
+
+Lemma denote_int_or_bool en e : int_env en -> no_str e = true ->
+  forall v, denote en e = Some v -> (exists z, v = VI z) \/ (exists b, v = VB b).
+Proof.
+  intros Hen. induction e as [n | s | x | a IH | o a IHa b IHb]; intros Hns v Hv; cbn [denote no_str] in *.
+  - inversion Hv. left. eexists. reflexivity.
+  - discriminate.
+  - left. eapply Hen. eassumption.
+  - destruct (denote en a) as [[z | s | b0]|]; try discriminate. inversion Hv. left. eexists. reflexivity.
+  - apply andb_prop in Hns. destruct Hns as [Ha Hb].
+    destruct (denote en a) as [va|]; [|discriminate]. destruct (denote en b) as [vb|]; [|discriminate].
+    destruct (IHa Ha va eq_refl) as [(za & ->) | (ba & ->)]; destruct (IHb Hb vb eq_refl) as [(zb & ->) | (bb & ->)];
+      destruct o; cbn [binop] in Hv; inversion Hv; eauto.
+Qed.
+
+Lemma eval_rep en e k : int_env en -> rep e k -> no_str e = true ->
+  forall v, denote en e = Some v -> eval (menv en) k = Ok (inj v).
+Proof.
+  intros Hen Hrep. induction Hrep as [n | s | x | n | e k Hrep IH | o a b ka kb Ha IHa Hb IHb]; intros Hns v Hv;
+    cbn [denote no_str] in *.
+  - inversion Hv. reflexivity.
+  - discriminate.
+  - cbn [eval]. rewrite var_get_menv, Hv. reflexivity.
+  - inversion Hv. cbn [eval inj]. do 2 f_equal; try lia.
+  - destruct (denote en e) as [[z | s | b0]|] eqn:E; try discriminate. inversion Hv. subst.
+    rewrite eval_calc. change (42 =? 0) with false. cbv beta iota.
+    rewrite (IH Hns _ eq_refl). cbn [eval bind inj]. calc_reduce. cbn [to_i]. do 2 f_equal; try lia.
+  - apply andb_prop in Hns. destruct Hns as [Hna Hnb].
+    destruct (denote en a) as [va|] eqn:Ea; [|discriminate]. destruct (denote en b) as [vb|] eqn:Eb; [|discriminate].
+    rewrite eval_calc. replace (opch o =? 0) with false by (destruct o; reflexivity).
+    rewrite (IHa Hna _ eq_refl), (IHb Hnb _ eq_refl). cbn [bind].
+    destruct (denote_int_or_bool en a Hen Hna va Ea) as [(za & ->) | (ba & ->)];
+      destruct (denote_int_or_bool en b Hen Hnb vb Eb) as [(zb & ->) | (bb & ->)]; cbn [inj].
+    + apply calc_int. assumption.
+    + destruct o; discriminate.
+    + destruct o; discriminate.
+    + apply calc_bool. assumption.
+Qed.
+
+(* ================================================================================================ *)
+(* 6. main theorem                                                                                    *)
+(* ================================================================================================ *)
+Theorem parse_eval tb lexvars en e t v ws0 r :
+  prints 4 e t -> no_str e = true -> int_env en -> denote en e = Some v -> blanks ws0 -> stop_tail r ->
+  eval_text tb lexvars (menv en) (ws0 ++ t ++ r) = Ok (inj v).
+Proof.
+  intros Hp Hns Hen Hv Hws Hr.
+  destruct (parse_top tb lexvars e t ws0 r Hp Hws Hr) as (k & s' & Hrep & Hread).
+  unfold eval_text. rewrite Hread. cbn [bind fst]. eapply eval_rep; eassumption.
+Qed.
+
+(* ================================================================================================ *)
+(* 7. the printers produce renderings                                                                 *)
+(* ================================================================================================ *)
+Lemma prints_mono l e t : prints l e t -> forall l', (l <= l')%nat -> prints l' e t.
+Proof.
+  induction 1; intros l' Hl; try (constructor; assumption).
+  apply P_bin; try assumption. lia.
+Qed.
+
+Lemma clash_nonempty o c ws t : clash o (c :: ws) t = false.
+Proof. destruct o; reflexivity. Qed.
+Lemma lvl_le4 o : (lvl o <= 4)%nat.
+Proof. destruct o; cbn; lia. Qed.
+Lemma blanks_nil : blanks [].
+Proof. reflexivity. Qed.
+
+Lemma print_at_prints e : expr_ok e = true -> forall l, prints l e (print_at l e).
+Proof.
+  induction e as [n | s | x | a IH | o a IHa b IHb]; intros Hok l; cbn [expr_ok print_at] in *.
+  - constructor. assumption.
+  - constructor. assumption.
+  - constructor. assumption.
+  - apply (P_neg l a [] (print_at 0 a) blanks_nil). apply IH. assumption.
+  - apply andb_prop in Hok. destruct Hok as [Ha Hb].
+    set (tb0 := print_at (lvl o - 1) b). set (ta := print_at (lvl o) a).
+    assert (Ht : forall l', (lvl o <= l')%nat -> prints l' (Bin o a b) (ta ++ opstr o ++ sep o tb0 ++ tb0)).
+    { intros l' Hl'. apply (P_bin l' o a b ta [] (sep o tb0) tb0 Hl'); try (apply IHa || apply IHb); try assumption.
+      - reflexivity.
+      - unfold sep. destruct (clash o [] tb0); reflexivity.
+      - unfold sep. destruct (clash o [] tb0) eqn:E; [apply clash_nonempty | exact E]. }
+    destruct (lvl o <=? l)%nat eqn:E.
+    + apply Ht. apply Nat.leb_le. assumption.
+    + unfold paren. apply (P_paren l (Bin o a b) [] _ [] blanks_nil blanks_nil). apply Ht. apply lvl_le4.
+Qed.
+
+Lemma blanks_of_blanks c : blanks (blanks_of c).
+Proof.
+  unfold blanks, blanks_of. destruct (Nat.even (c / 3)); induction (c mod 3)%nat as [|k IH]; cbn [repeat forallb]; auto.
+Qed.
+
+Lemma top_level_le4 e : (top_level e <= 4)%nat.
+Proof. destruct e; cbn [top_level]; try lia. apply lvl_le4. Qed.
+
+Lemma lay_finish l e t (w : bool) cs :
+  (forall l', (top_level e <= l')%nat -> prints l' e t) ->
+  prints l e (fst (if w || negb (top_level e <=? l)%nat
+                   then let '(c3, cs1) := nextc cs in let '(c4, cs2) := nextc cs1 in
+                        (40 :: blanks_of c3 ++ t ++ blanks_of c4 ++ [41], cs2)
+                   else (t, cs))).
+Proof.
+  intros H. destruct (w || negb (top_level e <=? l)%nat) eqn:E.
+  - destruct (nextc cs) as [c3 cs1]. destruct (nextc cs1) as [c4 cs2]. cbn [fst].
+    apply P_paren; try apply blanks_of_blanks. apply H. apply top_level_le4.
+  - cbn [fst]. apply H. apply orb_false_elim in E. destruct E as [_ E].
+    apply negb_false_iff in E. apply Nat.leb_le. assumption.
+Qed.
+
+Lemma print_lay_prints e : expr_ok e = true -> forall l cs, prints l e (fst (print_lay l e cs)).
+Proof.
+  induction e as [n | s | x | a IH | o a IHa b IHb]; intros Hok l cs; cbn [expr_ok] in Hok; cbn [print_lay].
+  - destruct (nextc cs) as [c0 cs0]. apply (lay_finish l (Lit n)). intros l' _. constructor. assumption.
+  - destruct (nextc cs) as [c0 cs0]. apply (lay_finish l (Str s)). intros l' _. constructor. assumption.
+  - destruct (nextc cs) as [c0 cs0]. apply (lay_finish l (Var x)). intros l' _. constructor. assumption.
+  - destruct (nextc cs) as [c0 cs0]. destruct (nextc cs0) as [c1 cs1].
+    pose proof (IH Hok 0%nat cs1) as Ha. destruct (print_lay 0 a cs1) as [ta cs2]. cbn [fst] in Ha.
+    apply (lay_finish l (Neg a)). intros l' _. apply P_neg; [apply blanks_of_blanks | assumption].
+  - apply andb_prop in Hok. destruct Hok as [Hoka Hokb].
+    destruct (nextc cs) as [c0 cs0]. destruct (nextc cs0) as [c1 cs1]. destruct (nextc cs1) as [c2 cs2].
+    pose proof (IHa Hoka (lvl o) cs2) as Ha. destruct (print_lay (lvl o) a cs2) as [ta cs3]. cbn [fst] in Ha.
+    pose proof (IHb Hokb (lvl o - 1)%nat cs3) as Hb. destruct (print_lay (lvl o - 1) b cs3) as [tb0 cs4]. cbn [fst] in Hb.
+    apply (lay_finish l (Bin o a b)). intros l' Hl'. cbn [top_level] in Hl'.
+    apply P_bin; try assumption; try apply blanks_of_blanks.
+    + destruct (clash o (blanks_of c2) tb0); [reflexivity | apply blanks_of_blanks].
+    + destruct (clash o (blanks_of c2) tb0) eqn:E; [apply clash_nonempty | exact E].
+Qed.
+
+(* ================================================================================================ *)
+(* 8. total division, built-in functions                                                              *)
+(* ================================================================================================ *)
+Lemma calc_div_mod_zero a b : to_i b = 0 -> calc 47 a b = Ok (SInt 0) /\ calc 37 a b = Ok (SInt 0).
+Proof.
+  intros H. split; calc_reduce; [unfold sv_div|]; rewrite H; reflexivity.
+Qed.
+
+Definition isize_ok (z : Z) : Prop := - 2 ^ 63 <= z < 2 ^ 63.
+
+Lemma firstn_min_length {A} (l : list A) a : firstn (Nat.min a (length l)) l = firstn a l.
+Proof.
+  destruct (Nat.le_gt_cases a (length l)).
+  - rewrite Nat.min_l by assumption. reflexivity.
+  - rewrite Nat.min_r by lia. rewrite firstn_all. rewrite firstn_all2 by lia. reflexivity.
+Qed.
+
+Lemma mid_spec_eq s i n : mid s i n = firstn (Z.to_nat n) (skipn (Z.to_nat (i - 1)) s).
+Proof.
+  unfold mid. set (L := length s).
+  assert (E1 : skipn (Z.to_nat (Z.min (i - 1) (Z.of_nat L))) s = skipn (Z.to_nat (i - 1)) s).
+  { destruct (Z_lt_le_dec (i - 1) (Z.of_nat L)).
+    - rewrite Z.min_l by lia. reflexivity.
+    - rewrite Z.min_r by lia. rewrite Nat2Z.id. rewrite !skipn_all2; try reflexivity; unfold L; lia. }
+  rewrite E1. set (l := skipn (Z.to_nat (i - 1)) s).
+  assert (Hl : (length l <= L)%nat) by (unfold l; rewrite skipn_length; lia).
+  destruct (Z_lt_le_dec n (Z.of_nat L)).
+  - rewrite Z.min_l by lia. reflexivity.
+  - rewrite Z.min_r by lia. rewrite Nat2Z.id. rewrite !firstn_all2; try reflexivity; lia.
+Qed.
+
+Lemma vb_mid_spec s i n : 0 <= i -> 0 <= n -> zlen s < 2 ^ 63 ->
+  vb_mid s i n = firstn (Z.to_nat n) (skipn (Z.to_nat (i - 1)) s).
+Proof.
+  intros Hi Hn Hlen. unfold vb_mid, zlen in *. set (L := length s) in *.
+  set (k := Z.to_nat (i - 1)).
+  assert (Hst0 : (if i >=? 1 then i - 1 else 0) = Z.of_nat k) by (unfold k; destruct (i >=? 1) eqn:E; lia).
+  rewrite Hst0.
+  destruct (Z.of_nat k >=? Z.of_nat L) eqn:E.
+  - (* the position is past the end *)
+    rewrite Nat2Z.id. rewrite !skipn_all2 by lia. rewrite !firstn_nil. reflexivity.
+  - rewrite Nat2Z.id. set (l := skipn k s).
+    assert (Hl : length l = (L - k)%nat) by (unfold l; rewrite skipn_length; reflexivity).
+    assert (Hp : 2 ^ 63 < 2 ^ 64 - 1) by (vm_compute; reflexivity).
+    set (e0 := Z.min (Z.of_nat k + n) (2 ^ 64 - 1)).
+    assert (He : (if e0 >=? Z.of_nat L then Z.of_nat L else e0) - Z.of_nat k
+                 = Z.of_nat (Nat.min (Z.to_nat n) (length l))).
+    { unfold e0. destruct (Z.min (Z.of_nat k + n) (2 ^ 64 - 1) >=? Z.of_nat L) eqn:E2; lia. }
+    rewrite He. rewrite Nat2Z.id. apply firstn_min_length.
+Qed.
+
+Lemma sys_function_mid name args : In name n_MID ->
+  sys_function name args =
+  if (3 <=? length args)%nat then
+    Ok (SStr (vb_mid (to_s (arg args 0)) (as_usize (Z.max (to_i (arg args 1)) 0)) (as_usize (Z.max (to_i (arg args 2)) 0))))
+  else Ok (SStr t_MID_ERROR).
+Proof. intros [<- | [<- | []]]; reflexivity. Qed.
+
+Lemma as_usize_small z : 0 <= z < 2 ^ 64 -> as_usize z = z.
+Proof. intros H. unfold as_usize. apply Z.mod_small. assumption. Qed.
+
+Lemma sys_mid name s i n : In name n_MID -> isize_ok i -> isize_ok n -> zlen s < 2 ^ 63 ->
+  sys_function name [SStr s; SInt i; SInt n] = Ok (SStr (mid s i n)).
+Proof.
+  intros Hname Hi Hn Hlen. rewrite sys_function_mid by assumption. cbn [length Nat.leb arg nth to_s to_i].
+  unfold isize_ok in *.
+  assert (Hp : 2 ^ 63 < 2 ^ 64) by (vm_compute; reflexivity).
+  rewrite !as_usize_small by lia. rewrite vb_mid_spec by lia. rewrite mid_spec_eq.
+  replace (Z.to_nat (Z.max n 0)) with (Z.to_nat n) by lia.
+  replace (Z.to_nat (Z.max i 0 - 1)) with (Z.to_nat (i - 1)) by lia. reflexivity.
+Qed.
+
+Lemma sys_sizeof name (v : sval) : In name n_SizeOf ->
+  sys_function name [v] = Ok (SInt (match v with SArr a => size_of a | SStr s => size_of s | _ => 0 end)).
+Proof. intros [<- | [<- | []]]; destruct v; reflexivity. Qed.
+
+Lemma sys_chr name n : In name n_CHR -> is_scalar n = true -> sys_function name [SInt n] = Ok (SStr (chr n)).
+Proof.
+  intros Hname Hn.
+  assert (E : sys_function name [SInt n] = Ok (SStr (chr_of n))) by (destruct Hname as [<- | [<- | []]]; reflexivity).
+  rewrite E. unfold chr_of, as_u32, chr. unfold is_scalar, in_range in Hn.
+  assert (Hp : 1114111 < 2 ^ 32) by (vm_compute; reflexivity).
+  rewrite Z.mod_small by lia.
+  replace ((n <? 55296) || ((57344 <=? n) && (n <=? 1114111))) with true by lia. reflexivity.
+Qed.
+
+Lemma prefixb_is_prefix p : forall s, prefixb p s = is_prefix p s.
+Proof. induction p as [|x p IH]; destruct s as [|y s]; cbn [prefixb is_prefix]; try reflexivity; rewrite IH; reflexivity. Qed.
+
+Lemma replace_loop_spec f : forall s a b, replace_loop f s a b = replace_all_f f s a b.
+Proof.
+  induction f as [|f IH]; intros s a b; [reflexivity|].
+  cbn [replace_loop replace_all_f]. destruct s as [|c r]; [reflexivity|].
+  rewrite prefixb_is_prefix. rewrite !IH. reflexivity.
+Qed.
+
+Lemma sys_replace name s a b : In name n_REPLACE -> a <> [] ->
+  sys_function name [SStr s; SStr a; SStr b] = Ok (SStr (replace_all s a b)).
+Proof.
+  intros Hname Ha.
+  assert (E : sys_function name [SStr s; SStr a; SStr b] = Ok (SStr (str_replace s a b)))
+    by (destruct Hname as [<- | [<- | []]]; reflexivity).
+  rewrite E. unfold str_replace, replace_all. destruct a as [|x a]; [congruence|].
+  rewrite replace_loop_spec. reflexivity.
+Qed.
+
+Lemma eval_array_index en x k (a : list sval) i v :
+  var_get en x = Some (SArr a) -> eval en k = Ok (SInt i) -> isize_ok i -> array_get a i = Some v ->
+  eval en (TCall true x [k]) = Ok v.
+Proof.
+  intros Hx Hk Hi Hget. unfold array_get in Hget. destruct (i <? 0) eqn:E; [discriminate|].
+  assert (Hlt : (Z.to_nat i < length a)%nat) by (apply nth_error_Some; congruence).
+  cbn [eval]. rewrite Hx. rewrite Hk. cbn [bind to_i].
+  assert (Hp : 2 ^ 63 < 2 ^ 64) by (vm_compute; reflexivity). unfold isize_ok in Hi.
+  rewrite as_usize_small by lia. unfold zlen.
+  replace (Z.of_nat (length a) <=? i) with false by lia.
+  f_equal. apply nth_error_nth. assumption.
+Qed.
+
+(* ================================================================================================ *)
+(* 9. corollaries for the canonical printer                                                           *)
+(* ================================================================================================ *)
+Theorem parse_eval_print tb lexvars en e v r :
+  expr_ok e = true -> no_str e = true -> int_env en -> denote en e = Some v -> stop_tail r ->
+  eval_text tb lexvars (menv en) (print e ++ r) = Ok (inj v).
+Proof.
+  intros Hok Hns Hen Hv Hr.
+  apply (parse_eval tb lexvars en e (print e) v [] r); try assumption; [|reflexivity].
+  apply print_at_prints. assumption.
+Qed.
+
+Theorem parse_eval_layout tb lexvars en e v cs r :
+  expr_ok e = true -> no_str e = true -> int_env en -> denote en e = Some v -> stop_tail r ->
+  eval_text tb lexvars (menv en) (fst (print_lay 4 e cs) ++ r) = Ok (inj v).
+Proof.
+  intros Hok Hns Hen Hv Hr.
+  apply (parse_eval tb lexvars en e _ v [] r); try assumption; [|reflexivity].
+  apply print_lay_prints. assumption.
+Qed.
+
+Definition zero_lit : expr := Lit (Dec [0]).
+Theorem div_mod_zero_expr tb lexvars en e z r :
+  expr_ok e = true -> no_str e = true -> int_env en -> denote en e = Some (VI z) -> stop_tail r ->
+  eval_text tb lexvars (menv en) (print (Bin ODiv e zero_lit) ++ r) = Ok (SInt 0) /\
+  eval_text tb lexvars (menv en) (print (Bin OMod e zero_lit) ++ r) = Ok (SInt 0).
+Proof.
+  intros Hok Hns Hen Hv Hr.
+  split; [apply (parse_eval_print tb lexvars en (Bin ODiv e zero_lit) (VI 0) r)
+         | apply (parse_eval_print tb lexvars en (Bin OMod e zero_lit) (VI 0) r)];
+    try assumption; cbn [expr_ok no_str denote zero_lit]; rewrite ?Hok, ?Hns, ?Hv; reflexivity.
+Qed.
+
+(* ================================================================================================ *)
+(* 10. "+" on strings, what booleans and strings print as                                             *)
+(* ================================================================================================ *)
+Lemma calc_plus a b :
+  calc 43 a b = Ok (if is_s a || is_s b then SStr (to_s a ++ to_s b) else SInt (to_i a + to_i b)).
+Proof. calc_reduce. unfold sv_add. destruct (is_s a || is_s b); reflexivity. Qed.
+
+Lemma shown_bool_str v : (forall z, v <> VI z) -> to_s (inj v) = show v.
+Proof. destruct v as [z | s | [|]]; intros H; [exfalso; apply (H z); reflexivity | reflexivity ..]. Qed.
